@@ -51,6 +51,13 @@ func vC06check(m Map, safe bool, indent bool) {
 		b, err = m.Json()
 	}
 	vAssert(err == nil, "json: a Map of JSON types encodes without error")
+	// a later encoding (of a smaller Map) must not disturb the bytes returned earlier
+	keep := string(b)
+	other := Map{"z": "<"}
+	_, _ = other.Json(safe)
+	_, _ = other.JsonIndent("", " ", safe)
+	_, _ = other.Copy()
+	vAssert(string(b) == keep, "json: the bytes returned by an encoder are not altered by later encodings")
 	var probe interface{}
 	vAssert(json.Unmarshal(b, &probe) == nil, "json: the output is valid JSON")
 	// agreement with encoding/json: HTML escaping on for the safe encoding, off for the default one
